@@ -1148,7 +1148,7 @@ pub unsafe extern "C" fn authorizer_builder_build(
     if builder.is_none() {
         update_last_error(Error::InvalidArgument);
     }
-    let builder = builder.unwrap();
+    let builder = builder?;
     builder
         .0
         .clone()
@@ -1170,7 +1170,7 @@ pub unsafe extern "C" fn authorizer_builder_build_unauthenticated(
     if builder.is_none() {
         update_last_error(Error::InvalidArgument);
     }
-    let builder = builder.unwrap();
+    let builder = builder?;
     builder
         .0
         .clone()
